@@ -1,14 +1,27 @@
 """C15 helper: the property ORACLE, written from the property text only (independent of the Lean model and of the
-backends' own bookkeeping): direct NumPy on the raw data of the case, exact comparison (integers as Python ints, float64
-bit for bit incl. NaN positions), the result dtype, the coordinate labels an xarray result must carry, and for every
+backends' own bookkeeping): direct NumPy on the raw data of the case (every numeric dtype: NumPy itself is the reference
+for the value AND the result dtype), exact comparison (integers as Python ints, floats of every width bit for bit incl.
+NaN positions, complex numbers part by part unless a part is NaN), the coordinate labels an xarray result must carry, and for every
 function that carries the `batchable` attribute at run time the law f(f(batch_1), ..., f(batch_k)) == NumPy f(all)
-— as fluent reduce() forms the batches (singleton passed through) and literally (every batch through f)."""
+— as fluent reduce() forms the batches (singleton passed through) and literally (every batch through f).
+
+What the text does NOT demand (second audit) and the oracle therefore does not judge -- every such case is COUNTED in
+STATS (printed by the check as `oracle_silent:*`), and the tie still compares it with the model (error cause included):
+  * NumPy itself raises for the data (np.stack of different shapes, an empty min/max, ...): "the value NumPy gives" does
+    not exist, whether the backend raises too or returns a value (xarray broadcasts ranks by name; Backend.stack
+    broadcasts before stacking -- numpy.stack does not);
+  * a mixture of ndarray and DataArray arguments that the backend refuses: the text quantifies over "plain arrays and
+    xarray objects alike", not over mixtures (a value returned for a mixture IS compared with NumPy's);
+  * labelled operands whose labels conflict and that the backend refuses to align (ASSUMPTIONS)."""
+import collections
 from fractions import Fraction
 
 import numpy as np
 
-from ekw.c15_real import (BINARY, NP_NAME, REDUCTIONS, arg_labels, arg_shape, call_rank, cont_of, dtype_of, fdec,
-                          flat, n_vars, np_arg, py_kind, var_view)
+from ekw.c15_real import (BINARY, COMPLEX, DT_NP, FLOATS, NP_NAME, REDUCTIONS, arg_labels, arg_shape, call_rank, cont_of,
+                          dtype_of, fdec, flat, n_vars, np_arg, py_kind, run_impl, var_view)
+
+STATS = collections.Counter()
 
 
 def _np_operands(case, key):
@@ -42,8 +55,9 @@ def numpy_reference(case, var=0):
                 return f(np.stack(arrs), axis=0)             # "stack on a new leading axis" (np.stack is strict about shapes)
             return f(arrs[0], axis=tuple(ax) if isinstance(ax, list) else ax)
         if op == "stack":
-            # Backend.stack: "All arrays must have the same shape, or be broadcastable to the same shape"
-            return np.stack(np.broadcast_arrays(*arrs), axis=0 if ax is None else ax)
+            # NumPy itself: numpy.stack wants equal shapes (Backend.stack's docstring promises broadcasting on top of that;
+            # where NumPy raises the text demands nothing -- the tie compares the broadcast with the model)
+            return np.stack(arrs, axis=0 if ax is None else ax)
         if op == "concat":
             return np.concatenate(arrs, axis=0 if ax is None else ax)
         if op in BINARY:
@@ -57,6 +71,11 @@ def numpy_reference(case, var=0):
                 labels = _labels_of_var(case, 0, var)[a]
                 pos = lambda l: labels.index(l)
                 ix = [pos(l) for l in ix] if isinstance(ix, list) else pos(ix)
+            it = case.get("index_type")
+            if case.get("index_dtype") and it in ("ndarray", "ndarray0d", "npint"):
+                # "the same indices": of the same integer dtype
+                idt = DT_NP[case["index_dtype"]]
+                ix = idt(ix) if it == "npint" else np.array(ix, dtype=idt)
             return np.take(arrs[0], ix, axis=ax)
     raise ValueError(op)
 
@@ -174,6 +193,12 @@ def same_values(got, exp):
         if got.dtype.kind not in "iufb" or got.reshape(-1).tolist() != exp.reshape(-1).tolist():
             return "values %s, NumPy gives %s" % (got.tolist(), exp.tolist())
         return None
+    if exp.dtype.kind == "c" or got.dtype.kind == "c":
+        # a complex number with a NaN part is a NaN (numpy.isnan); all NaNs are one NaN, as for the real floats -- which of two
+        # NaN elements numpy.min returns depends on the order it meets them
+        g, e = got.astype(np.complex128).reshape(-1), exp.astype(np.complex128).reshape(-1)
+        same = np.array_equal(g, e, equal_nan=True)
+        return None if same else "values %s, NumPy gives %s" % (got.tolist(), exp.tolist())
     if got.dtype.kind not in "iufb" or not np.array_equal(got.astype(np.float64), exp.astype(np.float64), equal_nan=True):
         return "values %s, NumPy gives %s" % (got.tolist(), exp.tolist())
     return None
@@ -186,39 +211,108 @@ def dtype_diff(got, exp):
     return None
 
 
+# unit roundoff u = 2^-p and smallest positive (subnormal) number of the binary formats
+_FMT = {"f64": (53, 1074), "f32": (24, 149), "f16": (11, 24)}
+
+
+def numpy_batched(case, var):
+    """NumPy's own evaluation of the SAME batch structure: f over each batch (a single-array batch is passed through
+    unless the case is read literally), then f over the results."""
+    key = "args" if var == 0 else "args2"
+    f = getattr(np, NP_NAME.get(case["op"], case["op"]))
+    arrs = [np_arg(case, i, key) for i in range(len(case[key]))]
+    import warnings
+    with np.errstate(all="ignore"), warnings.catch_warnings():
+        warnings.simplefilter("ignore")
+        mids, k = [], 0
+        for n in case["batches"]:
+            chunk = arrs[k:k + n]
+            k += n
+            mids.append(chunk[0] if (n == 1 and not case.get("literal")) else f(np.stack(chunk), axis=0))
+        return f(np.stack(mids), axis=0)
+
+
+def within_rounding_bound(op, dt, col, g, e):
+    """THE BOUND.  col: the k values that meet in one output element (exact rationals x_1..x_k), g / e: the batched and the
+    unbatched floating-point result.  Any evaluation order of a sum of k numbers in a binary format with unit roundoff
+    u = 2^-p (p = 53 / 24 / 11) returns s with |s - sum x_i| <= gamma_(k-1) * sum |x_i|, gamma_n = n u / (1 - n u)
+    (Higham, Accuracy and Stability of Numerical Algorithms, 2nd ed., (4.4)); any order of a product of k numbers returns
+    q with |q - prod x_i| <= gamma_(k-1) * |prod x_i| (Lemma 3.1) as long as nothing underflows -- for underflow an
+    absolute slack of k * eta * prod max(1, |x_i|) is added (eta = smallest positive number of the format).  True iff BOTH
+    results satisfy the bound (so they differ from each other by at most twice the bound)."""
+    p, emin = _FMT[dt]
+    k = len(col)
+    u = Fraction(1, 2 ** p)
+    n = max(k - 1, 1)
+    gamma = n * u / (1 - n * u)
+    fr = [Fraction(x) for x in col]
+    if op == "sum":
+        exact = sum(fr)
+        bound = gamma * sum(abs(x) for x in fr)
+    else:
+        exact, amp = Fraction(1), Fraction(1)
+        for x in fr:
+            exact *= x
+            amp *= max(Fraction(1), abs(x))
+        bound = gamma * abs(exact) + k * Fraction(1, 2 ** emin) * amp
+    return abs(Fraction(g) - exact) <= bound and abs(Fraction(e) - exact) <= bound
+
+
 def rounding_only(case, var, got, exp):
-    """float64 sum / prod of several arguments: do the batched and the unbatched result both lie within the
-    floating-point error bound of the exact (rational) result?  Then they differ by rounding only."""
+    """A batched float sum / prod of several arguments that differs from NumPy's f(all): is the difference the
+    non-associativity of floating-point arithmetic and nothing else?  Two conditions, both required:
+      (1) the backend's batched result is BIT FOR BIT what NumPy itself gives when it evaluates the same batch structure
+          (numpy_batched) -- a backend that sums differently from NumPy (compensated summation, another accumulator
+          width, ...) fails here even when its result is more accurate;
+      (2) the batched and the unbatched result both lie within the a-priori rounding bound of the exact rational result
+          (within_rounding_bound) -- a sanity bound on (1)'s reference itself.
+    Outcomes are counted in STATS (rounding_bound:*)."""
     op = case["op"]
     key = "args" if var == 0 else "args2"
-    if op not in ("sum", "prod") or dtype_of(case, key) != "f64" or len(case[key]) < 2:
+    dt = dtype_of(case, key)
+    if op not in ("sum", "prod") or dt not in _FMT or len(case[key]) < 2:
         return False
-    got, exp = np.asarray(got, dtype=np.float64), np.asarray(exp, dtype=np.float64)
-    if got.shape != exp.shape:
+    got, exp = np.asarray(got), np.asarray(exp)
+    if got.shape != exp.shape or got.dtype != exp.dtype:
         return False
-    arrs = [np_arg(case, i, key).astype(np.float64) for i in range(len(case[key]))]
+    try:
+        nb = np.asarray(numpy_batched(case, var))
+    except Exception:
+        STATS["rounding_bound:numpy-batched-raises"] += 1
+        return False
+    if nb.shape != got.shape or nb.dtype != got.dtype or not np.array_equal(nb, got, equal_nan=True):
+        STATS["rounding_bound:rejected-differs-from-numpy-batched"] += 1
+        return False
+    arrs = [np_arg(case, i, key) for i in range(len(case[key]))]
     if any(a.shape != exp.shape for a in arrs):
         return False
-    k = len(arrs)
-    u = Fraction(1, 2 ** 52)
-    cols = list(zip(*[a.reshape(-1).tolist() for a in arrs]))
-    for g, e, col in zip(got.reshape(-1).tolist(), exp.reshape(-1).tolist(), cols):
+    cols = list(zip(*[a.astype(np.float64).reshape(-1).tolist() for a in arrs]))
+    for g, e, col in zip(got.astype(np.float64).reshape(-1).tolist(), exp.astype(np.float64).reshape(-1).tolist(), cols):
         if g == e or (g != g and e != e):
             continue
         if not all(np.isfinite(x) for x in col) or not (np.isfinite(g) and np.isfinite(e)):
+            STATS["rounding_bound:rejected-non-finite"] += 1
             return False
-        fr = [Fraction(x) for x in col]
-        if op == "sum":
-            exact = sum(fr)
-            bound = 2 * k * u * sum(abs(x) for x in fr) + Fraction(1, 2 ** 1070)
-        else:
-            exact = Fraction(1)
-            for x in fr:
-                exact *= x
-            bound = 2 * k * u * abs(exact) + Fraction(k, 2 ** 1070)
-        if abs(Fraction(g) - exact) > bound or abs(Fraction(e) - exact) > bound:
+        if not within_rounding_bound(op, dt, col, g, e):
+            STATS["rounding_bound:rejected-outside-bound"] += 1
             return False
+    STATS["rounding_bound:accepted:" + dt] += 1
     return True
+
+
+def bound_selftest():
+    """the bound accepts the known witnesses and rejects a result that is off by a few units in the last place"""
+    p53 = 2.0 ** 53
+    return {
+        "f64 sum witness accepted": within_rounding_bound("sum", "f64", [p53, 1.0, 1.0], p53 + 2, p53),
+        "f64 sum off by 8 ulp rejected": not within_rounding_bound("sum", "f64", [p53, 1.0, 1.0], p53 + 16, p53),
+        "f64 prod witness accepted": within_rounding_bound("prod", "f64", [0.1, 0.1, 0.3], 0.003, 0.0030000000000000005),
+        "f64 prod off by 8 ulp rejected": not within_rounding_bound("prod", "f64", [0.1, 0.1, 0.3], 0.003, 0.003 + 8 * 4.4e-19),
+        "f32 sum witness accepted": within_rounding_bound("sum", "f32", [2.0 ** 24, 1.0, 1.0], 2.0 ** 24 + 2, 2.0 ** 24),
+        "f32 sum off by 4 ulp rejected": not within_rounding_bound("sum", "f32", [2.0 ** 24, 1.0, 1.0], 2.0 ** 24 + 8, 2.0 ** 24),
+        "f16 sum witness accepted": within_rounding_bound("sum", "f16", [2048.0, 1.0, 1.0], 2050.0, 2048.0),
+        "f16 sum off by 4 ulp rejected": not within_rounding_bound("sum", "f16", [2048.0, 1.0, 1.0], 2056.0, 2048.0),
+    }
 
 
 def _shapes(case):
@@ -275,28 +369,44 @@ def oracle(case, status, val):
             refs.append((True, numpy_reference(case, vi)))
         except Exception as e:
             refs.append((False, e))
-    if status == "error" and not all(ok for ok, _ in refs):
-        return None                          # NumPy raises for (a variable of) these arguments as well
+    raises = [not ok for ok, _ in refs]
+    unbatched = None
+    if any(raises):
+        # NumPy gives NO value for (a variable of) these arguments: the text demands nothing about them
+        if not batched:
+            STATS["oracle_silent:numpy-raises:" + ("backend-raises-too" if status == "error" else
+                                                     "backend-returns-a-value" if all(raises) else "for-one-variable-only")] += 1
+            if status == "error" or all(raises):
+                return None
+        else:
+            # the LAW is about f itself: where NumPy rejects f(all) the batched result is compared with the backend's own f(all)
+            st0, val0 = run_impl({k: v for k, v in case.items() if k not in ("batches", "literal")})
+            if st0 == "error":
+                STATS["oracle_silent:batched:numpy-and-backend-reject-f(all)"] += 1
+                return None
+            STATS["batched_compared_with_backend_f(all)"] += 1
+            unbatched = val0
+            if status == "error":
+                return ({"kind": kind, "op": op, "backend": be, "cause": "f(all)-has-a-value"},
+                        "%s raised %s where the backend's own f(all) returns %s (NumPy rejects f(all))"
+                        % (where, val[1], [np.asarray(v["values"]).tolist() for v in val0]))
     for vi in range(n_vars(case)):
         ok_, exp = refs[vi]
+        vs_backend = False
         if not ok_:
-            e = exp
-            if batched:
-                continue                     # NumPy itself rejects f(all): nothing is claimed
-            cause = "other"
-            shs = _shapes(case)
-            if be != "np" and op in REDUCTIONS and len(shs) >= 2 and len({len(s) for s in shs}) > 1:
-                cause = "xr-broadcast-ranks"
-            return ({"kind": "no-error", "op": op, "backend": be, "cause": cause},
-                    "%s: NumPy raises %s for these arguments, the backend returned a value" % (where, type(e).__name__))
+            if unbatched is None or vi >= len(unbatched):
+                continue                     # (unbatched call, this variable only: nothing demanded for it)
+            exp, vs_backend = unbatched[vi]["values"], True
         if status == "error":
             tok = val[0]
             if conflict and tok in ("align", "coords-presence"):
+                STATS["oracle_silent:conflicting-labels-refused"] += 1
                 continue                     # labelled operands that are not the same data as any plain arrays: refusing is right
-            cause = tok
             if _mixed(case) and tok == "mixed":
-                cause = "mixed-containers"
-            elif be != "np" and tok == "shape" and _size1_stretch(case) and op in (["stack"] + BINARY + REDUCTIONS):
+                STATS["oracle_silent:mixture-of-containers-refused"] += 1
+                continue                     # a mixture of plain and xarray arguments: outside the quantifier of the text
+            cause = tok
+            if be != "np" and tok == "shape" and _size1_stretch(case) and op in BINARY:
                 cause = "xr-size1-stretch"
             s = dict(sig)
             if not batched:
@@ -304,21 +414,27 @@ def oracle(case, status, val):
             s["cause"] = cause
             return (s, "%s raised %s where NumPy computes %s" % (where, val[1], np.asarray(exp).tolist()))
         got = val[vi]["values"]
+        dd = dtype_diff(got, exp)
         diff = same_values(got, exp)
+        if dd:
+            # the result dtype is part of "the value NumPy gives" (float32 data summed in float64 is another number)
+            s = {"kind": "dtype", "op": op, "backend": be}
+            if be != "np" and op in REDUCTIONS and var_view(case, vi)[0] == [] and not batched:
+                s["cause"] = "xr-empty-dim-list"
+            return (s, "%s: %s%s" % (where, dd, ("; " + diff) if diff else " (the values agree)"))
         if diff:
             s = dict(sig)
-            if conflict:
+            if vs_backend:
+                s["cause"] = "differs-from-backend-f(all)"
+                diff = diff.replace("NumPy gives", "the backend's own f(all) gives")
+            elif conflict:
                 s["kind"] = "misaligned-value"
             elif batched and not literal and rounding_only(case, vi, got, exp):
                 s["kind"] = kind + "-float-rounding"
             what = where + (" (axis=%s index=%s)" % (case.get("axis"), case.get("index")) if not batched else "") + ": " + diff
             return (s, what)
-        dd = dtype_diff(got, exp)
-        if dd:
-            s = {"kind": "dtype", "op": op, "backend": be}
-            if be != "np" and op in REDUCTIONS and var_view(case, vi)[0] == []:
-                s["cause"] = "xr-empty-dim-list"
-            return (s, "%s: %s" % (where, dd))
+        if vs_backend:
+            continue
         if val[vi]["labels"] is not None or any(cont_of(case, i) != "np" for i in range(len(case["args"]))):
             if not conflict:
                 el = expected_labels(case, vi, np.ndim(exp))
